@@ -159,13 +159,21 @@ def run_impl_all(mod, cases, timeout=3000):
         return []
     ctx = mp.get_context("fork")
     chunk = max(1, min(200, len(cases) // (NPROC * 4) or 1))
-    with ctx.Pool(min(NPROC, max(1, len(cases))), initializer=_worker_init) as pool:
-        ar = pool.map_async(_run_one, [(mod.__name__, c) for c in cases], chunksize=chunk)
-        try:
-            return ar.get(timeout=timeout)
-        except mp.TimeoutError:
-            pool.terminate()
-            raise ImplHang("implementation did not finish %d cases within %ds" % (len(cases), timeout))
+    # a scratch directory the drivers may keep per-process files in for the whole run; removed here, whatever happens
+    import tempfile
+    scratch = tempfile.mkdtemp(prefix="verif_scratch_", dir="/dev/shm" if os.path.isdir("/dev/shm") else None)
+    os.environ["VERIF_SCRATCH"] = scratch
+    try:
+        with ctx.Pool(min(NPROC, max(1, len(cases))), initializer=_worker_init) as pool:
+            ar = pool.map_async(_run_one, [(mod.__name__, c) for c in cases], chunksize=chunk)
+            try:
+                return ar.get(timeout=timeout)
+            except mp.TimeoutError:
+                pool.terminate()
+                raise ImplHang("implementation did not finish %d cases within %ds" % (len(cases), timeout))
+    finally:
+        shutil.rmtree(scratch, ignore_errors=True)
+        os.environ.pop("VERIF_SCRATCH", None)
 
 
 def coq_eval(pid, mod, cases, obs, tag):
